@@ -111,7 +111,7 @@ def whStep (w : Impl.Wheel.Wheel) (line : String) (t : Tally) : Except String (I
       -- and nothing was expired early
       let T := Impl.Wheel.wheelTime (parseIntS now)
       let early := e.filter (fun n => w.deadline n ≥ T)
-      let linkedIds := (w'.wheel.map (fun lv => lv.flatten)).flatten
+      let linkedIds := w'.entries.map (·.id)
       -- (a node added with its deadline already behind the wheel's clock is scheduled for the tick of the Add: C13 exempts
       --  entries written less than one tick before T, and the property is about deadlines MORE than a tick before T)
       let overdue := linkedIds.filter (fun n => (w'.effective n) >>> 30 < T >>> 30)
@@ -307,6 +307,53 @@ def cpStep (_st : Unit) (line : String) (t : Tally) : Except String (Unit × Tal
     else .ok ((), t)
   | _ => .error "unknown line"
 
+/-! ### conc-events: every written value is reported exactly once by each deletion handler (C06, C07) -/
+
+structure CeSt where
+  written : List Nat := []
+  atomicE : List (Nat × String) := []      -- value, cause
+  delE : List (Nat × String) := []
+
+def ceStep (st : CeSt) (line : String) (t : Tally) : Except String (CeSt × Tally) :=
+  let ws := splitWs line
+  match ws with
+  | ["written", v] => .ok ({ st with written := v.toNat! :: st.written }, t.bump "written")
+  | ["atomic", _k, v, c] => .ok ({ st with atomicE := (v.toNat!, c) :: st.atomicE }, t.bump "atomic_events")
+  | ["deletion", _k, v, c] => .ok ({ st with delE := (v.toNat!, c) :: st.delE }, t.bump "deletion_events")
+  | "end" :: rest =>
+    let t := t.bump "runs"
+    let srt (l : List (Nat × String)) := l.mergeSort (fun a b => a.1 ≤ b.1)
+    let a := srt st.atomicE
+    let d := srt st.delE
+    let w := st.written.mergeSort (· ≤ ·)
+    let rec dupOf : List (Nat × String) → Option Nat
+      | x :: y :: rest => if x.1 == y.1 then some x.1 else dupOf (y :: rest)
+      | _ => none
+    if natOf rest "size" != 0 then .error s!"C06: {natOf rest "size"} entries are present after InvalidateAll and CleanUp"
+    else match dupOf a with
+    | some v => .error s!"C06: value {v} was reported more than once by OnAtomicDeletion: {a.filter (·.1 == v)}"
+    | none =>
+      match dupOf d with
+      | some v => .error s!"C06: value {v} was reported more than once by OnDeletion: {d.filter (·.1 == v)}"
+      | none =>
+        match w.find? (fun v => !(a.any (·.1 == v))) with
+        | some v => .error s!"C06: written value {v} left the cache without an OnAtomicDeletion event"
+        | none =>
+          match w.find? (fun v => !(d.any (·.1 == v))) with
+          | some v => .error s!"C06: written value {v} left the cache without an OnDeletion event"
+          | none =>
+            match a.find? (fun x => !(w.contains x.1)) with
+            | some x => .error s!"C06/C07: OnAtomicDeletion reported value {x.1} ({x.2}) that was never written"
+            | none =>
+              match d.find? (fun x => !(w.contains x.1)) with
+              | some x => .error s!"C06/C07: OnDeletion reported value {x.1} ({x.2}) that was never written"
+              | none =>
+                -- same cause in both handlers (the lists are sorted by value and duplicate free)
+                match (a.zip d).find? (fun (x, y) => x.1 == y.1 && x.2 != y.2) with
+                | some (x, y) => .error s!"C06: value {x.1} was reported with cause {x.2} by OnAtomicDeletion and {y.2} by OnDeletion"
+                | none => .ok ({}, t)
+  | _ => .error "unknown line"
+
 /-! ### conc-resize: a Compute in progress while the table is resized (C15, C02) -/
 
 def czStep (_st : Unit) (line : String) (t : Tally) : Except String (Unit × Tally) :=
@@ -453,6 +500,11 @@ def cfStep (st : CfSt) (line : String) (t : Tally) : Except String (CfSt × Tall
   match ws with
   | "round" :: _ :: rest =>
     .ok ({ outcome := (kvOf rest "outcome").getD "", base := natOf rest "base", loads := [], kills := [] }, t.bump s!"rounds_{(kvOf rest "outcome").getD ""}")
+  | "stats" :: rest =>
+    -- C20: the statistics record exactly one load per loader invocation (no phantom loads for callers that only joined)
+    if natOf rest "loadsrec" != natOf rest "invocations" then
+      .error s!"C20: the statistics record {natOf rest "loadsrec"} loads (successes + failures), the loaders were invoked {natOf rest "invocations"} times"
+    else .ok (st, t.bump "stats_points")
   | ["kill", k, s] => .ok ({ st with kills := (k.toNat!, s.toNat!) :: st.kills }, t.bump "kills")
   | "supersede" :: rest =>
     -- while the second load (started after the invalidation) is in flight, a third caller must join it
@@ -529,6 +581,7 @@ def dispatch (cmd : String) (_args : List String) (h : IO.FS.Stream) : IO UInt32
   | "conclin" => loop h ({} : LnSt) lnStep {} "" 0 false {}; return 0
   | "concpolicy" => loop h () cpStep () "" 0 false {}; return 0
   | "concresize" => loop h () czStep () "" 0 false {}; return 0
+  | "concevents" => loop h ({} : CeSt) ceStep {} "" 0 false {}; return 0
   | "concmpsc" => loop h ({} : CmSt) cmStep {} "" 0 false {}; return 0
   | "concdrain" => loop h () cdStep () "" 0 false {}; return 0
   | "policy" => loop h ({} : Impl.Policy.Policy) plStep {} "" 0 false {}; return 0
